@@ -308,7 +308,13 @@ def r5(ctx: Ctx) -> None:
         m = ctx.func(f"Market.{g}")
         for p in ctx.paths(m.qualname):
             r = strip_ver(p.exit[1]) if p.exit[0] == "return" else None
+            while r is not None and r[0] == "call" and r[1][0] == "name" and r[1][1] in ("dict", "float", "copy") and len(r[2]) == 1:
+                r = strip_ver(r[2][0])  # a copy / conversion of the book's answer
             ok = r is not None and r[0] == "call" and key(r[1]) == f"self.{book}.{meth}"
+            other = "sell_order_book" if book == "buy_order_book" else "buy_order_book"
+            if not ok and r is not None and other not in key(r) and p.exit[0] == "return":
+                ctx.unrec(m, m.node, f"Market.{g} reads its own side's book", "the answer does not come straight from the book (kept or derived value): whether it is still what the book would say is not decided", short(r))
+                continue
             ctx.check(ok, m, m.node, f"Market.{g} reads its own side's book", f"self.{book}.{meth}()", short(r))
 
 
